@@ -82,9 +82,11 @@ func tryReplay(P *Prog, ex *Exec, o *Obl, v *Verdict, tmp string, seed int) *Rep
 		}
 	}
 	var plans []*valPlan
+	P.genMu.Lock()
 	for _, in := range ex.inputs {
 		plans = append(plans, g.plan(in.Type, in.Val, 0))
 	}
+	P.genMu.Unlock()
 	if len(req.exprs) > 0 {
 		b.WriteString("(get-value (" + strings.Join(req.exprs, "\n ") + "))\n")
 	}
